@@ -26,8 +26,8 @@
 EXTENDS CGVerilogIO
 
 RECURSIVE UidBFrom(_,_,_,_)
-UidBFrom(st, n, R, j) == IF j > Len(UidSteps) THEN n \o "_overflow"
-                         ELSE LET cand == n \o "_" \o ToString(UidSteps[j]) IN
+UidBFrom(st, n, R, j) == IF j > MaxUidTries THEN n \o "_overflow"
+                         ELSE LET cand == n \o "_" \o UidSuffix(j) IN
                               IF cand \in st.nodes \/ cand \in R THEN UidBFrom(st, n, R, j + 1) ELSE cand
 UidB(st, n, R) == IF n \notin st.nodes /\ n \notin R THEN n ELSE UidBFrom(st, n, R, 1)
 
